@@ -147,6 +147,16 @@ Theorem C30_roundtrip_all : forall ok infl cfg,
 Proof. intros ok infl cfg Hcap ops keys Hk Hok. exact (roundtrip_all ok infl cfg Hcap ops keys Hk Hok). Qed.
 Print Assumptions C30_roundtrip_all.
 
+(* The harness runs write_all_o, which adds writers the application left open (XOpen: NextWriter +
+   writes, no Close; the next NextWriter / WriteMessage finishes that message).  Without such writers
+   it is exactly the run of the theorems above; sequences with XOpen are checked on the
+   implementation only (model wire = real wire, and the real peer and the strict decoder both read
+   xops_events). *)
+Theorem C30_open_writer_conservative : forall ops cfg keys sent,
+    write_all_o cfg keys sent None (map (fun to => XOp (fst to) (snd to)) ops) = write_all_t cfg keys sent ops.
+Proof. intros ops cfg keys sent. exact (write_all_o_closed ops cfg keys sent). Qed.
+Print Assumptions C30_open_writer_conservative.
+
 (* ------------------------------------------------------------------ non-vacuity *)
 
 Definition ex_cfg_srv : wcfg := mkWcfg true 16 false.   (* write buffer of 2 payload bytes *)
